@@ -9,10 +9,14 @@ import (
 	"github.com/wollac/iota-crypto-demo/pkg/bip32path"
 	"pgregory.net/rapid"
 
+	"verifharness/fc"
 	"verifharness/h"
 )
 
-func TestMain(m *testing.M) { h.Main(m) }
+func TestMain(m *testing.M) {
+	h.FirstCallsChild(fc.Path()) // never returns in a first-call child process
+	h.Main(m)
+}
 
 // ---- reference: hand-written parser, base 10, no regexp, no strconv ----
 
@@ -432,3 +436,6 @@ func FuzzParsePath(f *testing.F) {
 func FuzzGenStrings(f *testing.F) {
 	h.FuzzSub(f, h.Sub[strCase]{Prop: "C10", Name: "parse-strings", Gen: genString, Check: checkString})
 }
+
+// which public entry point is called first in a process (and by how many goroutines at once)
+func TestFirstCalls(t *testing.T) { h.FirstCallsSub(t, "C10", fc.Path(), 6) }
